@@ -137,7 +137,9 @@ def isinstance_model(eng, v, T, st):
         h = st.heap[v.oid]
         cls = dict if isinstance(h, HDict) else list if isinstance(h, HList) else object
         if isinstance(h, HObj):
-            raise Unsupported("isinstance of created object")
+            if h.cls is None:
+                raise Unsupported("isinstance of an untyped created object")
+            return any(issubclass(_resolve_cls(h.cls), t) for t in types_)
         return any(issubclass(cls, t) for t in types_)
     if isinstance(v, Const):
         return isinstance(v.obj, tuple(types_))
@@ -206,6 +208,16 @@ def call_native(eng, obj, args, kwargs, st):
                 except Exception as e:  # noqa
                     return err(type(e).__name__, str(e), snap)
         return eng.call_repo_function(obj, args, kwargs, st)
+    if isinstance(obj, type) and issubclass(obj, ast.AST):
+        o = HObj("ast." + obj.__name__)
+        fields = list(getattr(obj, "_fields", ()))
+        if len(args) > len(fields):
+            return err("TypeError", "%s constructor takes at most %d positional arguments" % (obj.__name__, len(fields)), st)
+        for f, a in zip(fields, args):
+            o.attrs[f] = a
+        for k, v in kwargs.items():
+            o.attrs[k] = v
+        return ok(st.alloc(o), st)
     if isinstance(obj, type) and issubclass(obj, BaseException):
         return ok(Opq(fresh("excobj", Obj), obj.__name__), st)
     # all-concrete pure builtins
@@ -280,7 +292,7 @@ def call_specop(eng, op, args, kwargs, st):
             raise Unsupported("typeis on untyped opaque")
         if isinstance(v, Ref):
             h = st.heap[v.oid]
-            t = "dict" if isinstance(h, HDict) else "list"
+            t = "dict" if isinstance(h, HDict) else "list" if isinstance(h, HList) else (h.cls or "object").split(".")[-1]
         return ok(t == name, st)
     raise Unsupported("spec op %s" % op.name)
 
@@ -322,6 +334,8 @@ def n_type(eng, args, kwargs, st):
         return ok(Native(m[t]), st)
     if isinstance(v, Ref):
         h = st.heap[v.oid]
+        if isinstance(h, HObj) and h.cls:
+            return ok(Native(_resolve_cls(h.cls)), st)
         return ok(Native(dict if isinstance(h, HDict) else list), st)
     if isinstance(v, Opq) and v.cls:
         return ok(Native(_resolve_cls(v.cls)), st)
